@@ -58,7 +58,12 @@ func specialX(x *mon.Ctx, limit int) []named {
 	m64 := pow2(64)
 	lo127 := func(x *big.Int) *big.Int { return new(big.Int).Mod(x, m127) }
 	lo64 := func(x *big.Int) *big.Int { return new(big.Int).Mod(x, m64) }
-	mid := func(x *big.Int) *big.Int { return new(big.Int).Mod(new(big.Int).Rsh(x, 64), m64) } // limb 1 of x
+	m128 := pow2(128)
+	// distance of (x mod 2^128) above 2^127, cyclically: tiny = 0x8000..0xx, huge = 0x7fff..fxx (either side of the bit x~ forces)
+	mid := func(x *big.Int) *big.Int {
+		v := new(big.Int).Mod(x, m128)
+		return v.Sub(v, m127).Mod(v, m128)
+	}
 	id := func(x *big.Int) *big.Int { return x }
 	lt := func(a, b *big.Int) bool { return a.Cmp(b) < 0 }
 	gt := func(a, b *big.Int) bool { return a.Cmp(b) > 0 }
@@ -66,7 +71,7 @@ func specialX(x *mon.Ctx, limit int) []named {
 		{name: "min(x mod 2^127)", less: lt, key: lo127}, {name: "max(x mod 2^127)", less: gt, key: lo127},
 		{name: "min(x)", less: lt, key: id}, {name: "max(x)", less: gt, key: id},
 		{name: "min(x mod 2^64)", less: lt, key: lo64}, {name: "max(x mod 2^64)", less: gt, key: lo64},
-		{name: "min(limb1 x)", less: lt, key: mid}, {name: "max(limb1 x)", less: gt, key: mid},
+		{name: "x mod 2^128 just above 2^127", less: lt, key: mid}, {name: "x mod 2^128 just below 2^127", less: gt, key: mid},
 	}
 	p := ec.G
 	for k := 1; k <= limit; k++ {
